@@ -173,10 +173,34 @@ func (p *poolT) Put(v interface{}) { p.p.Put(v) }
 
 var sharedPools = map[int]*poolT{}
 
-// onlyReader hides WriterTo of bytes.Reader so that ReadFrom really pulls through Read.
-type onlyReader struct{ r io.Reader }
+// srcReader: an io.Reader over data that is NOT an io.WriterTo. eofWithData: the Read that hands out the last
+// bytes reports io.EOF together with them (allowed by the io.Reader contract); otherwise (0, io.EOF) comes
+// separately. chunk > 0: at most chunk bytes per Read.
+type srcReader struct {
+	data        []byte
+	off         int
+	chunk       int
+	eofWithData bool
+}
 
-func (o onlyReader) Read(p []byte) (int, error) { return o.r.Read(p) }
+func (r *srcReader) Read(p []byte) (int, error) {
+	if r.off >= len(r.data) {
+		return 0, io.EOF
+	}
+	k := len(r.data) - r.off
+	if k > len(p) {
+		k = len(p)
+	}
+	if r.chunk > 0 && k > r.chunk {
+		k = r.chunk
+	}
+	copy(p, r.data[r.off:r.off+k])
+	r.off += k
+	if r.eofWithData && r.off == len(r.data) {
+		return k, io.EOF
+	}
+	return k, nil
+}
 
 func isCtl(t int) bool { return t == 8 || t == 9 || t == 10 }
 
@@ -249,26 +273,24 @@ func runScript(idx int, sc script, res *vh.Result) (completed bool) {
 					data = genControlAt(rng, sc.currentType(si), st.N, len(cur), 1000)
 				}
 				var n int
-				switch {
-				case st.Via == "s":
-					if sw, ok := w.(io.StringWriter); ok {
-						n, err = sw.WriteString(string(data))
-						break
+				switch st.Via {
+				case "s":
+					n, err = io.WriteString(w, string(data)) // messageWriter.WriteString; Write on a flate-wrapped writer
+				case "r", "re", "rc", "rce":
+					// io.Copy: messageWriter.ReadFrom on a plain writer (the source is not an io.WriterTo), the generic
+					// Read/Write loop on a flate-wrapped one
+					src := &srcReader{data: data, eofWithData: st.Via == "re" || st.Via == "rce"}
+					if st.Via == "rc" || st.Via == "rce" {
+						src.chunk = 1 + rng.Intn(7)
 					}
-					fallthrough
-				case st.Via == "r":
-					if rf, ok := w.(io.ReaderFrom); ok && st.Via == "r" {
-						var n64 int64
-						n64, err = rf.ReadFrom(onlyReader{bytes.NewReader(data)})
-						n = int(n64)
-						break
-					}
-					fallthrough
+					var n64 int64
+					n64, err = io.Copy(w, src)
+					n = int(n64)
 				default:
 					n, err = w.Write(data)
 				}
 				if err == nil && n != len(data) {
-					bad("write:short-count", fmt.Sprintf("Write of %d bytes returned n=%d with a nil error", len(data), n))
+					bad("write:short-count", fmt.Sprintf("streaming call (%s) of %d bytes returned n=%d with a nil error", st.Via, len(data), n))
 				}
 			case "WriteMessage":
 				conn.EnableWriteCompression(st.Z)
@@ -494,6 +516,7 @@ func modeWrite(in json.RawMessage, res *vh.Result) error {
 func main() {
 	vh.Main(map[string]vh.Mode{
 		"write":          modeWrite,
+		"stall":          modeStall,
 		"handshake":      modeHandshake,
 		"closecodes":     modeCloseCodes,
 		"transportclose": modeTransportClose,
